@@ -14,9 +14,9 @@ from ..oracle import spectrum as O
 LEVEL = "exploration"
 NEEDS = ["cli", "cli:ovf"]
 STATS = ["d-fu-li", "d-tajima", "f2", "f3", "f4", "fst", "king", "pi", "pi-xy", "r0", "r1", "s", "sum", "theta"]
-RULE = ("(1) EVERY statistic (14) x EVERY shape with 1-4 axes and lengths 1-4 (340 shapes), zero/positive data; (2) view/fold/create option values at and "
+RULE = ("(1) EVERY statistic (14) x EVERY shape with 1-4 axes and lengths 1-4 (340 shapes) plus all 1-2 axis shapes up to length 10 and all 9-entry shapes, zero/positive data; (2) view/fold/create option values at and "
         "beyond their bounds (axes, projection targets 0 / larger / wrong dimensionality / 2^63 / 2^64-1, precision 0/17/65535/65536/10^6, threads); "
-        "(3) empty and 1-10 byte inputs to all four subcommands by path and stdin; (4) absurd declared shapes in text and npy headers (0, 2^32, 2^63, "
+        "(3) empty and 1-10 byte inputs and texts cut off after / interrupted by multi-byte UTF-8 characters, to all four subcommands by path and stdin; (4) absurd declared shapes in text and npy headers (0, 2^32, 2^63, "
         "wrapping products, up to 22000 axes); (5) contradictory sample lists; (6) hostile bytes: every single-byte substitution {^01, ^80, 00, ff, +1} "
         "at every offset of small vcf / vcf.gz / bgzf bcf / raw bcf / npy / text seed files (deterministic), the same on the uncompressed payload "
         "re-BGZF'd, plus seeded multi-site mutations, splices, digit runs -> huge numbers, truncations. Each run on the release and the "
@@ -26,8 +26,8 @@ RULE = ("(1) EVERY statistic (14) x EVERY shape with 1-4 axes and lengths 1-4 (3
 ASSUMPTIONS = ["findings are keyed by (subcommand, normalised panic site); dependency sites are stable because Cargo.lock pins them",
                "--threads above 1024 is out of scope (whether the OS refuses that many threads depends on the machine's limits)",
                "population counts between 20 and 25 are not generated: the 3^k-cell spectrum may or may not be allocatable on a given machine"]
-FLOORS = {"quick": {"evaluations": 30000, "distinct_nontrivial": 10000, "counts": {"stat_grid": 9000, "option_bounds": 300, "short_inputs": 300, "absurd_shapes": 150, "sample_lists": 60, "hostile_bytes": 15000}},
-          "thorough": {"evaluations": 400000, "distinct_nontrivial": 150000, "counts": {"stat_grid": 9000, "hostile_bytes": 300000}}}
+FLOORS = {"quick": {"evaluations": 30000, "distinct_nontrivial": 10000, "counts": {"stat_grid": 11000, "option_bounds": 300, "short_inputs": 300, "absurd_shapes": 150, "sample_lists": 60, "hostile_bytes": 15000}},
+          "thorough": {"evaluations": 400000, "distinct_nontrivial": 150000, "counts": {"stat_grid": 11000, "hostile_bytes": 300000}}}
 NSHARD = 32
 KINDS = ["release", "ovf"]
 
@@ -103,6 +103,10 @@ def run_case(S, args, inp, sub, cls, count, via="stdin"):
 # ---------------------------------------------------------------- (1) statistics grid
 def part_stat_grid(S, p):
     shapes = list(GS.all_shapes(4, 4))
+    # beyond the stated grid: every 1- and 2-axis shape with lengths up to 10 and every shape with 9 entries (the kinship
+    # statistics are defined for 3x3 only), so that a guard that tests the element count instead of the shape is seen
+    shapes += [s_ for s_ in GS.all_shapes(2, 10) if max(s_) > 4]
+    shapes += [[1, 1, 9], [9, 1, 1], [1, 9, 1], [3, 1, 3], [1, 3, 3], [3, 3, 1], [1, 3, 1, 3], [3, 3, 1, 1], [2, 2, 2, 2, 2], [27], [81]]
     mine = [s for k, s in enumerate(shapes) if k % NSHARD == p["i"]]
     for shape in mine:
         rng = rng_for(0, "c17-grid", str(shape))
@@ -161,6 +165,10 @@ def part_short(S, p):
     seeds = [b"", b"#", b"#S", b"#SH", b"#SHAP", b"#SHAPE", b"#SHAPE=", b"#SHAPE=<", b"\x93", b"\x93NUMP", b"\x93NUMPY", b"\x93NUMPY\x01", b"\x93NUMPY\x01\x00",
              b"\x93NUMPY\x01\x00\x00", b"\x1f", b"\x1f\x8b", b"\x1f\x8b\x08", b"B", b"BC", b"BCF", b"BCF\x02", b"BCF\x02\x02", b"BCF\x02\x02\x00\x00\x00\x00", b"\n", b"##", b"##fileformat",
              b"\x00", b"\xff" * 7, b"1 2 3\n", bytes(rng.randrange(256) for _ in range(rng.randint(1, 10)))]
+    # text that is valid UTF-8 but ends (or is interrupted) by multi-byte characters, with and without line terminators
+    for tail in ("é", "€", "𝄞", "é\n", "\u00a0", "１２"):
+        for head in ("#SHAPE=<3>", "#SHAPE=<3>\n1 2 3", "#SHAPE=<3", "#SHAPE=<2/2>\n1 2 3 ", "#SHAPE", "##fileformat=VCFv4.3\n#CHROM", "##fileformat=VCFv4.3"):
+            seeds.append((head + tail).encode("utf-8"))
     mine = [s for k, s in enumerate(seeds) if k % 8 == p["i"] % 8]
     for s in mine:
         for sub in (["create"], ["view"], ["fold"], ["stat", "-s", "sum"]):
@@ -289,7 +297,7 @@ def part_hostile(S, p):
         name = rng.choice(names)
         kind, data = files[name]
         b = bytearray(data)
-        how = rng.choice(["multi", "splice", "huge", "trunc", "dup", "payload"])
+        how = rng.choice(["multi", "splice", "huge", "trunc", "dup", "payload", "utf8"])
         if how == "payload" and name in payloads:
             pl = bytearray(payloads[name])
             for _ in range(rng.randint(1, 6)):
@@ -310,6 +318,10 @@ def part_hostile(S, p):
                 b = b[:m.start()] + rng.choice([b"99999999999999999999", b"18446744073709551616", b"4294967296", b"-1", b"1e400", b"0" * 50 + b"7"]) + b[m.end():]
         elif how == "trunc":
             b = b[:rng.randrange(len(b))]
+        elif how == "utf8":
+            ch = rng.choice(["é", "€", "𝄞", "\u2028", "１"]).encode("utf-8")
+            a = rng.choice([len(b), rng.randrange(len(b) + 1)])
+            b = b[:a] + ch * rng.randint(1, 3) + (b[a:] if rng.random() < 0.5 else b"")
         else:
             a = rng.randrange(len(b))
             b = b[:a] + b[a:a + rng.randint(1, 60)] * rng.randint(2, 4) + b[a:]
